@@ -59,6 +59,8 @@ BAD_KEYS = {"k_int": 1, "k_float": 1.5, "k_none": None, "k_bool": True, "k_tuple
 BAD_VALS = {"v_object": object, "v_set": lambda: {1, 2}, "v_complex": lambda: 1j,
             "v_instance": _Inst, "v_decimal": lambda: decimal.Decimal("1.5"),
             # falsy / empty variants: "nothing to validate" shortcuts must not let them through
+            # equal to, and hashing like, the valid tuple (1, 2) that the process has validated before
+            "v_tuple_decimal_eq": lambda: (decimal.Decimal(1), 2), "v_tuple_complex_eq": lambda: (1 + 0j, 2),
             "v_set_empty": set, "v_frozenset_empty": frozenset, "v_complex_zero": lambda: 0j,
             "v_decimal_zero": lambda: decimal.Decimal(0), "v_falsy_instance": _FalsyInst}
 DOTTED = {"k_dotted": "a.b"}
@@ -445,7 +447,17 @@ def _fails(case, fn=None):
     return None
 
 
+def _warm_valid_tuples():
+    """The process has validated ordinary tuples before (memo tables keyed by == / hash must not let
+    an equal tuple with non-JSON members through)."""
+    from synced_collections.validators import json_format_validator, require_string_key
+    for v in ((1, 2), (1.0, 2), [(1, 2)], {"a": (1, 2)}):
+        json_format_validator(v)
+        require_string_key(v)
+
+
 def run_shard(spec, seed, tier, active):
+    _warm_valid_tuples()
     check_api()
     ci = CLASSES[spec["cls"]]
     acc = Acc()
